@@ -10,7 +10,7 @@ META = {
                    'payload k = transform_point(payload k) in every arm and Path::transform maps all ops and forwards winding; '
                    'arc() builds the lyon Arc from its parameters in the right slots, draws line_to(a.from()) before the curve, '
                    'and forwards every quadratic as quad_to(ctrl, to).',
-    'decides': ['R20.1 builder ops', 'R20.2 rect corner forms', 'R20.3 transform arms', 'R20.4 arc plumbing'],
+    'decides': ['R20.1 builder ops', 'R20.2 rect corner forms (as polynomials and computed as plain sums of the arguments: f32-exact)', 'R20.3 transform arms', 'R20.4 arc plumbing'],
     'does_not_decide': ['arc accuracy, sweep clamping and on-screen direction (lyon_geom)', 'float rounding'],
     'assumptions': ['euclid Transform2D::transform_point maps a point by the matrix (external, euclid 0.22.14)',
                     'lyon_geom Arc::from / for_each_quadratic_bezier approximate the arc described by the Arc fields (external)'],
@@ -96,22 +96,66 @@ def r20_2(ctx):
             got.append((d[len(PB):], tuple(poly(a) for a in ct[2][1:]), bi))
     names = ['x', 'y', 'width', 'height']
     key = 'path_builder::PathBuilder::rect'
+    def plain(t):
+        t = strip_all(t)
+        if t[0] == 'param':
+            return True
+        return t[0] == 'bin' and t[1] == 'Add' and strip_all(t[2])[0] == 'param' and strip_all(t[3])[0] == 'param' and strip_all(t[2]) != strip_all(t[3])
+    array_plain = []
+    if not got:
+        # the five ops appended at once: self.path.ops.extend_from_slice(&[MoveTo(..), LineTo(..), .., Close])
+        import geomalg
+        va = geomalg.VA(ctx)
+        for bi, d, ct in seq:
+            if d and d.endswith('extend_from_slice') and len(ct[2]) == 2:
+                r0, n0 = field_path(strip_all(ct[2][0]))
+                arr = strip_all(ct[2][1])
+                if arr[0] == 'mem':
+                    arr = shared.resolve_mem(an, arr)
+                if r0 == ('param', 1) and n0[:2] == ['path', 'ops'] and arr[0] == 'agg' and arr[1] == 'array':
+                    opn = {'MoveTo': 'move_to', 'LineTo': 'line_to', 'Close': 'close', 'QuadTo': 'quad_to', 'CubicTo': 'cubic_to'}
+                    for _i, e in arr[4]:
+                        e = strip_all(e)
+                        if e[0] == 'agg' and e[2] == PATHOP:
+                            pts = []
+                            for _n, pt in e[4]:
+                                pts.extend(va.vec(pt))
+                                pt1 = strip_all(pt)
+                                comps = None
+                                if is_call(pt1, 'Point2D::<T, U>::new') and len(pt1[2]) == 2:
+                                    comps = pt1[2]
+                                elif pt1[0] == 'agg' and (pt1[2] or '').endswith('Point2D'):
+                                    comps = [dict(pt1[4]).get('x', ('unknown',)), dict(pt1[4]).get('y', ('unknown',))]
+                                array_plain.append(comps is not None and all(plain(c0) for c0 in comps))
+                            got.append((opn.get(e[3], e[3]), tuple(pts), bi))
     if not ctx.check(len(got) == 5, R, key + '|five-ops', b.loc(), 'five builder calls', 'rect() makes %d builder calls, expected 5' % len(got)):
         return
+    # each coordinate must also be *computed* as the plain sum: in f32, (x + w) - w is not x and (x + w) + 0. differs
+    # from x + w for -0.0; a corner derived from another corner drifts off the rectangle for large/fractional values
+    if array_plain:
+        ctx.check(all(array_plain), R, key + '|corners computed directly', b.loc(), 'every corner is Point::new of x, y, x + width, y + height as written',
+                  'the corners appended by rect() are equal to the rectangle\'s corners as real numbers but are not computed as plain sums of the arguments (a corner derived from another corner, e.g. (x + width) - width, is not the requested corner in f32 for large or fractional values)')
+    raw_args = {}
+    for bi, d, ct in seq:
+        if d and d.startswith(PB):
+            raw_args[bi] = ct[2][1:]
     for i, ((wn, wa), (gn, ga, bi)) in enumerate(zip(want, got)):
         ok = wn == gn and tuple(wa) == tuple(ga)
+        if ok and bi in raw_args and len(raw_args) == 5:
+            okp = all(plain(a) for a in raw_args[bi])
+            ctx.check(okp, R, key + '|op%d computed directly' % i, call_line(b, bi), 'corner coordinates are x, y, x + width, y + height as written',
+                      'op %d is %s(%s): equal to the corner as a real number but not computed as a plain sum of the arguments — in f32 a corner derived from another corner ((x + width) - width) is not the requested corner for large or fractional values' % (i, gn, ', '.join(fmt(b, a)[:60] for a in raw_args[bi])))
         ctx.check(ok, R, key + '|op%d' % i, call_line(b, bi),
                   'op %d is %s(%s)' % (i, gn, ', '.join(p.show(b) for p in ga)),
                   'op %d is %s(%s), expected %s(%s)' % (i, gn, ', '.join(p.show(b) for p in ga), wn, ', '.join(p.show(b) for p in wa)))
 
 
-def r20_3(ctx):
-    R = 'R20.3'
-    b = ctx.body(PATHOP + '::transform', R)
+def _check_op_mapper(ctx, R, b, key, op_t, is_xform):
+    """body b maps the PathOp op_t variant by variant: every arm returns the same variant with payload k =
+    xform.transform_point(payload k)"""
     an = ctx.an(b)
-    ms = [m for m in matches(ctx, b, 'PathOp') if m.scrut == ('param', 1)]
-    key = 'path_builder::PathOp::transform'
-    if not ctx.check(len(ms) == 1, R, key + '|match', b.loc(), 'one match on self', 'expected one match on self, found %d' % len(ms)):
+    ms = [m for m in matches(ctx, b, 'PathOp') if strip_all(m.scrut) == op_t]
+    if not ctx.check(len(ms) == 1, R, key + '|match', b.loc(), 'one match on the op', 'expected one match on the op, found %d' % len(ms)):
         return
     m = ms[0]
     ctx.check(m.otherwise is None, R, key + '|no-wildcard', b.loc(), 'no live wildcard arm', 'match has a live wildcard arm')
@@ -131,13 +175,21 @@ def r20_3(ctx):
         ok = rt[3] == v and len(rt[4]) == npts.get(v, -1)
         for i, (_, ft) in enumerate(rt[4]):
             ft = strip_all(ft)
-            if not (is_call(ft, 'transform_point') and strip_all(ft[2][0]) == ('param', 2)
-                    and ft[2][1] == ('field', ('param', 1), str(i), PATHOP, v)):
+            if not (is_call(ft, 'transform_point') and is_xform(strip_all(ft[2][0]))
+                    and ft[2][1] == ('field', op_t, str(i), PATHOP, v)):
                 ok = False
         ctx.check(ok, R, k, b.loc(), '%s -> %s with payload k = xform.transform_point(payload k)' % (v, v),
                   'arm %s returns %s: not the same variant with every payload point k mapped from its own payload k' % (v, fmt(b, rt)))
         n += 1
     ctx.floor(R, 'PathOp::transform arms', n, 5)
+
+
+def r20_3(ctx):
+    R = 'R20.3'
+    b = ctx.body(PATHOP + '::transform', R, optional=True)
+    mapper_inline = b is None
+    if b is not None:
+        _check_op_mapper(ctx, R, b, 'path_builder::PathOp::transform', ('param', 1), lambda x: x in (('param', 2), ('deref', ('param', 2))))
 
     # Path::transform
     b = ctx.body('raqote::path_builder::Path::transform', R)
@@ -182,7 +234,13 @@ def r20_3(ctx):
                 others = [d for bi2, d, ct2 in calls_in(ctx, b) if d and ct2[2] and strip_all(ct2[2][0])[0] in ('mem', 'ref') and any(x == ('mem', vecl) for x in subterms(ct2[2][0])) and d.split('::')[-1] not in ('iter_mut', 'deref_mut', 'into_iter', 'next')]
                 inplace = from_self and okst and not others
         ctx.check(shape or inplace, R, key + '|ops', b.loc(), 'ops = self.ops mapped op by op through PathOp::transform(transform), in order', 'ops is %s: not every op of self.ops mapped in order' % fmt(b, o))
-        if shape:
+        if shape and mapper_inline:
+            # the per-op mapper written out in the closure: |op| match op { .. }
+            cb = ctx.body(clo[2], R)
+            _check_op_mapper(ctx, R, cb, 'path_builder::Path::transform::{closure}', ('param', 2), lambda x: shared.upvar_index(x) == 0 or (x[0] == 'deref' and shared.upvar_index(x[1]) == 0))
+        elif mapper_inline:
+            ctx.fail(R, 'anchor|path_builder::PathOp::transform', '-', 'anchor item %s::transform not found and Path::transform does not map the ops in a closure: cannot decide (fail closed)' % PATHOP)
+        elif shape:
             cb = ctx.body(clo[2], R)
             crt = shared.ret_terms(ctx, cb)
             okc = (len(crt) == 1 and is_call(crt[0], 'PathOp::transform') and crt[0][2][0] == ('param', 2)
@@ -291,6 +349,41 @@ def r20_4(ctx):
                 t = strip_all(t)
                 return t[0] == 'field' and t[2] == c and t[1][0] == 'field' and t[1][2] == p and strip_all(t[1][1]) in (('param', 2), ('deref', ('param', 2)))
             ok = qf(a[1], 'ctrl', 'x') and qf(a[2], 'ctrl', 'y') and qf(a[3], 'to', 'x') and qf(a[4], 'to', 'y')
+        if not ok and not qs:
+            # two phases: the callback only collects the segments (quads.push(*q)); a loop over the collection then
+            # forwards each one, in order
+            pushes = [ct for bi, d, ct in calls_in(ctx, cb) if d and d.endswith('Vec::<T, A>::push')]
+            ui = shared.upvar_index(pushes[0][2][0]) if len(pushes) == 1 else None
+            if ui is None and len(pushes) == 1 and pushes[0][2][0][0] in ('deref', 'ref'):
+                ui = shared.upvar_index(strip_all(pushes[0][2][0][1]))
+            okp = ui is not None and strip_all(pushes[0][2][1]) in (('deref', ('param', 2)), ('param', 2)) and len(calls_in(ctx, cb)) == 1
+            vec_l = None
+            if okp and ui < len(clo[4]):
+                cap = strip_all(clo[4][ui][1])
+                while cap[0] in ('ref', 'deref'):
+                    cap = strip_all(cap[1])
+                vec_l = cap[1] if cap[0] in ('mem', 'phi') else None
+            qs2 = [(bi, ct) for bi, d, ct in cs if d == PB + 'quad_to']
+            ok = vec_l is not None and len(qs2) == 1
+            if ok:
+                qbi, qct = qs2[0]
+                a = qct[2]
+                def qf2(t, p, c):
+                    t = strip_all(t)
+                    if not (t[0] == 'field' and t[2] == c and t[1][0] == 'field' and t[1][2] == p):
+                        return False
+                    el = strip_all(t[1][1])
+                    while el[0] == 'deref':
+                        el = strip_all(el[1])
+                    if not (el[0] == 'field' and el[4] == 'Some' and is_call(el[1], 'Iterator::next')):
+                        return False
+                    D = Deps(an)
+                    D.closure(el[1][2][0])
+                    return any(x[0] in ('mem', 'phi') and x[1] == vec_l for x in (D.visited | D.touched)) and not any(is_call(x, 'Iterator::rev', 'Iterator::skip', 'Iterator::take', 'Iterator::step_by') for x in D.visited)
+                ok = qf2(a[1], 'ctrl', 'x') and qf2(a[2], 'ctrl', 'y') and qf2(a[3], 'to', 'x') and qf2(a[4], 'to', 'y') and an.cfg.dominates(fbi, qbi)
+                # nothing else touches the collection between the two phases
+                touch = [d for bi, d, ct in cs if d and ct[2] and any(x == ('mem', vec_l) for a0 in ct[2][:1] for x in subterms(a0)) and d.split('::')[-1] not in ('into_iter', 'iter', 'next', 'new', 'deref')]
+                ok = ok and not touch
         ctx.check(ok, R, key + '|closure', cb.loc(), 'closure = quad_to(q.ctrl.x, q.ctrl.y, q.to.x, q.to.y)', 'the arc callback does not forward each quadratic as quad_to(ctrl, to)')
     else:
         ctx.fail(R, key + '|closure', call_line(b, fbi), 'the arc callback is not a closure of arc(): cannot analyse (fail closed)')
